@@ -3,12 +3,10 @@
 import json, os
 ROOT = os.path.dirname(os.path.dirname(os.path.abspath(__file__)))
 BASE_TB = "Coq 8.16.1 kernel + vm_compute; no axioms declared; ExtrOcamlBasic extraction + OCaml runner; Go drivers and python comparator/monitors; see DESIGN.md section 3"
-CHECKS = {
- "C05": dict(
-   text="Theorems (PropC05.v) over the Gallina model of AccessMode text/delta algebra: canonical round trip and delta/apply for all 256 / 256x256 sets (finite sweeps lifted, bound in statement), unknown letters rejected / target unchanged / case-insensitivity for ALL strings by induction, notification tracking for ALL change sequences by induction. Tied to types.go by extraction-based differential run (exhaustive 256x256 + all short strings) on every run; law monitors evaluated on the implementation's answers.",
-   note=BASE_TB + "; notifySubChange string construction is tied to the code only through the stateful harness",
-   technique="Coq theorem (finite sweep lifted + induction) + extracted-model correspondence", design="5/C05"),
-}
+import glob
+CHECKS = {}
+for f in sorted(glob.glob(os.path.join(ROOT, "tools", "props", "*.manifest.json"))):
+    CHECKS[os.path.basename(f).split(".")[0].upper()] = json.load(open(f))
 def main():
     checks = []
     for pid in sorted(CHECKS):
@@ -21,7 +19,7 @@ def main():
             "replay_cmd_template": "python3 tools/check.py %s --replay {path}" % pid,
             "engine": "coq+corr",
             "level_claimed": {"category": "proof", "text": c["text"], "design_ref": "DESIGN.md " + c["design"]},
-            "level_note": c["note"],
+            "level_note": c["note"].replace("{BASE}", BASE_TB),
             "technique": c["technique"],
         })
     allp = ["C%02d" % i for i in range(1, 21)]
